@@ -60,7 +60,8 @@ theorem mem_insertMd {rows : List MdRow} {r x : MdRow} (h : x ∈ insertMd rows 
 /-- what a positive answer of should_sign implies (this proof breaks when a guard disappears from Gen.guards) -/
 theorem shouldSign_spec {now : Nat} {s : Node} {p : Key} {tree : Tree} {m : Metadata} {j : Json}
     (h : shouldSign now s p tree m j = true) :
-    ∃ tk r, tree.find? m.tokenPtr = some tk ∧ lookup tk.content s.known = some r ∧ r.key = p ∧ now ≤ r.t + 300 ∧
+    ∃ tk r, tree.find? m.tokenPtr = some tk ∧ lookup tk.content s.known = some r ∧ r.key = p ∧
+      (now ≤ r.t + 300000 ∧ (Gen.windowStrict = true → now < r.t + 300000)) ∧
       j.has .name = true ∧ j.has .date = true ∧ j.has .schema = true ∧ j.name = r.name ∧
       (r.md = none ∨ r.md = some j.extra) ∧ s.attested.contains m.id = false := by
   simp only [shouldSign, Gen.guards, List.all_cons, List.all_nil, Bool.and_true, Bool.and_eq_true] at h
@@ -76,7 +77,10 @@ theorem shouldSign_spec {now : Nat} {s : Node} {p : Key} {tree : Tree} {m : Meta
       simp only [hr] at h4 h5 h6 h7
       refine ⟨tk, r, rfl, hr, ?_, ?_, ?_, ?_, ?_, ?_, ?_, ?_⟩
       · simpa using h4
-      · simp at h5; omega
+      · refine ⟨by simp at h5; omega, ?_⟩
+        first
+          | (intro hs; exact absurd hs (by decide))
+          | (intro _; simp at h5; omega)
       · simp at h6; exact h6.1
       · simp [List.all_cons] at h2; exact h2.2.1
       · simp [List.all_cons] at h2; exact h2.2.2
@@ -116,7 +120,7 @@ theorem substantiate_frame (s : Node) (p : Key) (msg : Msg) :
   simp only [substantiate]
   split
   · simp [subTokens]
-  · split <;> simp [subTokens, subMds, subAtts]
+  · split <;> simp [subTokens, subPersist, subMds, subAtts]
 
 theorem foldl_insertAtt_mem (p : Key) : ∀ (atts : List (Key × Att)) (rows : List AttRow) (x : AttRow),
     x ∈ atts.foldl (fun rows a => if verifies a.2.vk a.1 then insertAtt rows ⟨p, a.1, a.2⟩ else rows) rows →
@@ -177,6 +181,23 @@ theorem signLoop_frame (now : Nat) (p : Key) (tree : Tree) : ∀ (mds : List Met
     (signLoop now p tree s mds).1.chain = s.chain ∧ (signLoop now p tree s mds).1.perms = s.perms ∧
     (signLoop now p tree s mds).1.mdRows = s.mdRows ∧ (signLoop now p tree s mds).1.trees = s.trees ∧
     (signLoop now p tree s mds).1.genesis = s.genesis := by
+  intro mds
+  induction mds with
+  | nil => intro s; simp [signLoop]
+  | cons m rest ih =>
+    intro s
+    cases hj : m.json with
+    | none => simp [signLoop, hj]
+    | some j =>
+      by_cases hs : shouldSign now s p tree m j = true
+      · simp only [signLoop, hj, hs, if_true]
+        have := ih (recordAttest s p m.id)
+        simpa [recordAttest] using this
+      · simp only [signLoop, hj, hs]
+        exact ih s
+
+theorem signLoop_tokRows (now : Nat) (p : Key) (tree : Tree) : ∀ (mds : List Metadata) (s : Node),
+    (signLoop now p tree s mds).1.tokRows = s.tokRows := by
   intro mds
   induction mds with
   | nil => intro s; simp [signLoop]
@@ -374,21 +395,102 @@ theorem find?_mem_elements {t : Tree} {h : Hash} {tk : Token} (hf : t.find? h = 
   have := List.find?_some hf
   simpa using this
 
+/-! ### which tree `get_pseudonym(k).tree` is after each part of substantiate -/
+
+theorem persist_filter_ne (p k : Key) (hk : k ≠ p) : ∀ (new : List Token) (rows : List (Key × Token)),
+    (persistToks rows p new).filter (fun r => r.1 == k) = rows.filter (fun r => r.1 == k) := by
+  intro new
+  induction new with
+  | nil => intro rows; rfl
+  | cons t rest ih =>
+    intro rows
+    simp only [persistToks, List.foldl_cons]
+    split
+    · exact ih rows
+    · have := ih (rows ++ [(p, t)])
+      simp only [persistToks] at this
+      rw [this, List.filter_append]
+      have hpk : (p == k) = false := by simp; exact fun h => hk h.symm
+      simp [hpk]
+
+theorem persist_mem (p : Key) : ∀ (new : List Token) (rows : List (Key × Token)) (r : Key × Token),
+    r ∈ persistToks rows p new → r ∈ rows ∨ (r.1 = p ∧ r.2 ∈ new) := by
+  intro new
+  induction new with
+  | nil => intro rows r h; exact Or.inl h
+  | cons t rest ih =>
+    intro rows r h
+    simp only [persistToks, List.foldl_cons] at h
+    split at h
+    · rcases ih rows r h with h1 | ⟨h1, h2⟩
+      · exact Or.inl h1
+      · exact Or.inr ⟨h1, List.mem_cons_of_mem _ h2⟩
+    · rcases ih _ r h with h1 | ⟨h1, h2⟩
+      · rcases List.mem_append.mp h1 with h3 | h3
+        · exact Or.inl h3
+        · simp at h3; subst h3; exact Or.inr ⟨rfl, by simp⟩
+      · exact Or.inr ⟨h1, List.mem_cons_of_mem _ h2⟩
+
+theorem treeOf_subTokens_self (s : Node) (p : Key) (msg : Msg) :
+    treeOf (subTokens s p msg).1 p = (gatherAll p (genesisOf s p) (treeOf s p) msg.tokens).1 := by
+  simp [treeOf, subTokens, lookup_insertDict]
+
+theorem treeOf_subTokens_ne (s : Node) (p k : Key) (msg : Msg) (hk : k ≠ p) :
+    treeOf (subTokens s p msg).1 k = treeOf s k := by
+  have : ¬ p = k := fun h => hk h.symm
+  simp [treeOf, subTokens, lookup_insertDict, this, loadTree]
+
+theorem treeOf_subPersist (s : Node) (p k : Key) (msg : Msg) :
+    treeOf (subPersist s (subTokens s p msg).1 p) k = treeOf (subTokens s p msg).1 k := by
+  by_cases hk : k = p
+  · subst hk
+    simp [treeOf, subPersist, subTokens, lookup_insertDict]
+  · have hne : ¬ p = k := fun h => hk h.symm
+    simp only [treeOf, subPersist, subTokens, lookup_insertDict, hne, if_false]
+    cases lookup k s.trees with
+    | some t => rfl
+    | none => simp only [loadTree]; rw [persist_filter_ne p k hk]
+
+/-- after substantiate: the sender's tree is the gathered one, every other tree is what it was -/
+theorem treeOf_substantiate (s : Node) (p k : Key) (msg : Msg) :
+    treeOf (substantiate s p msg).1 k =
+      if k = p then (gatherAll p (genesisOf s p) (treeOf s p) msg.tokens).1 else treeOf s k := by
+  have base : treeOf (subTokens s p msg).1 k =
+      if k = p then (gatherAll p (genesisOf s p) (treeOf s p) msg.tokens).1 else treeOf s k := by
+    by_cases hk : k = p
+    · subst hk; simp [treeOf_subTokens_self]
+    · simp [hk, treeOf_subTokens_ne s p k msg hk]
+  have mdsAtts : ∀ s1 : Node, treeOf (subMds s1 p msg) k = treeOf s1 k ∧ treeOf (subAtts s1 p msg) k = treeOf s1 k := by
+    intro s1; constructor <;> simp [treeOf, loadTree, subMds, subAtts]
+  simp only [substantiate]
+  split
+  · exact base
+  · split
+    · rw [(mdsAtts _).1, treeOf_subPersist]; exact base
+    · rw [(mdsAtts _).2, (mdsAtts _).1, treeOf_subPersist]; exact base
+
 /-! ### node invariant: everything stored verifies -/
 
 structure NodeOk (s : Node) : Prop where
   rows : ∀ r ∈ s.attRows, verifies r.att.vk r.authority = true
   mds : ∀ r ∈ s.mdRows, verifies r.md.vk r.subject = true
+  toks : ∀ r ∈ s.tokRows, verifies r.2.vk r.1 = true
   trees : ∀ k t, lookup k s.trees = some t → TreeOk k t
 
 theorem treeOf_ok {s : Node} (h : NodeOk s) (k : Key) : TreeOk k (treeOf s k) := by
   unfold treeOf
   cases hl : lookup k s.trees with
-  | none => intro x hx; simp at hx
   | some t => exact h.trees k t hl
+  | none =>
+    intro x hx
+    simp only [loadTree, List.not_mem_nil, or_false, List.mem_map, List.mem_filter] at hx
+    obtain ⟨r, ⟨hr, hk⟩, hx⟩ := hx
+    have := h.toks r hr
+    simp only [beq_iff_eq] at hk
+    rw [← hx, ← hk]; exact this
 
 theorem subTokens_ok {s : Node} (h : NodeOk s) (p : Key) (msg : Msg) : NodeOk (subTokens s p msg).1 := by
-  refine ⟨h.rows, h.mds, ?_⟩
+  refine ⟨h.rows, h.mds, h.toks, ?_⟩
   intro k t hl
   simp only [subTokens, lookup_insertDict] at hl
   split at hl
@@ -399,15 +501,25 @@ theorem subTokens_ok {s : Node} (h : NodeOk s) (p : Key) (msg : Msg) : NodeOk (s
     exact gatherAll_tree_ok _ _ _ _ (treeOf_ok h _)
   · exact h.trees k t hl
 
+theorem subPersist_ok {s : Node} (h : NodeOk s) (p : Key) (msg : Msg) :
+    NodeOk (subPersist s (subTokens s p msg).1 p) := by
+  have h1 := subTokens_ok h p msg
+  refine ⟨h1.rows, h1.mds, ?_, h1.trees⟩
+  intro r hr
+  rcases persist_mem p _ _ r hr with h2 | ⟨h2, h3⟩
+  · exact h1.toks r h2
+  · rw [h2]
+    exact treeOf_ok h1 p r.2 (Or.inl (List.mem_filter.mp h3).1)
+
 theorem subMds_ok {s : Node} (h : NodeOk s) (p : Key) (msg : Msg) : NodeOk (subMds s p msg) := by
-  refine ⟨h.rows, ?_, h.trees⟩
+  refine ⟨h.rows, ?_, h.toks, h.trees⟩
   intro r hr
   rcases foldl_insertMd_mem p _ _ r hr with h1 | ⟨h1, h2, _⟩
   · exact h.mds r h1
   · rw [h1]; exact h2
 
 theorem subAtts_ok {s : Node} (h : NodeOk s) (p : Key) (msg : Msg) : NodeOk (subAtts s p msg) := by
-  refine ⟨?_, h.mds, h.trees⟩
+  refine ⟨?_, h.mds, h.toks, h.trees⟩
   intro r hr
   rcases foldl_insertAtt_mem p _ _ r hr with h1 | ⟨_, h2, _⟩
   · exact h.rows r h1
@@ -418,8 +530,8 @@ theorem substantiate_ok {s : Node} (h : NodeOk s) (p : Key) (msg : Msg) : NodeOk
   split
   · exact subTokens_ok h p msg
   · split
-    · exact subMds_ok (subTokens_ok h p msg) p msg
-    · exact subAtts_ok (subMds_ok (subTokens_ok h p msg) p msg) p msg
+    · exact subMds_ok (subPersist_ok h p msg) p msg
+    · exact subAtts_ok (subMds_ok (subPersist_ok h p msg) p msg) p msg
 
 /-- `correct` implies every token of the message verifies under the sender's key and every attestation under its
     declared authority -/
@@ -436,12 +548,13 @@ theorem substantiate_correct {s : Node} {p : Key} {msg : Msg} (h : (substantiate
 theorem signLoop_ok (now : Nat) (p : Key) (tree : Tree) (mds : List Metadata) {s : Node} (h : NodeOk s) :
     NodeOk (signLoop now p tree s mds).1 := by
   obtain ⟨_, _, _, _, f5, f6, _⟩ := signLoop_frame now p tree mds s
-  refine ⟨?_, ?_, ?_⟩
+  refine ⟨?_, ?_, ?_, ?_⟩
   · intro r hr
     rcases (signLoop_rows now p tree mds s).2 r hr with h1 | ⟨_, _, h3⟩
     · exact h.rows r h1
     · exact h3
   · rw [f5]; exact h.mds
+  · rw [signLoop_tokRows]; exact h.toks
   · rw [f6]; exact h.trees
 
 theorem signPhase_ok (now : Nat) {s1 : Node} (h : NodeOk s1) (p : Key) (order : List Hash) (c : Bool) :
@@ -463,7 +576,7 @@ theorem received_ok (now : Nat) {s : Node} (h : NodeOk s) (p : Key) (msg : Msg) 
 
 theorem step_ok (now : Nat) {s : Node} (h : NodeOk s) (e : Event) : NodeOk (step now s e).1 := by
   cases e with
-  | addKnown l raw padded name key md => exact ⟨h.rows, h.mds, h.trees⟩
+  | addKnown l raw padded name key md => exact ⟨h.rows, h.mds, h.toks, h.trees⟩
   | disclosure p msg order => exact received_ok now h p msg order
   | attestMsg p a =>
     cases a with
@@ -472,15 +585,15 @@ theorem step_ok (now : Nat) {s : Node} (h : NodeOk s) (e : Event) : NodeOk (step
       simp only [step, onAttest]
       split
       · rename_i hv
-        refine ⟨?_, h.mds, h.trees⟩
+        refine ⟨?_, h.mds, h.toks, h.trees⟩
         intro r hr
         rcases mem_insertAtt hr with h1 | h1
         · exact h.rows r h1
         · subst h1; exact hv
       · exact h
   | requestMissing p k => exact h
-  | advertise to tok md ml => exact ⟨h.rows, h.mds, h.trees⟩
-  | selfAdvertise tok => exact ⟨h.rows, h.mds, h.trees⟩
+  | advertise to tok md ml => exact ⟨h.rows, h.mds, h.toks, h.trees⟩
+  | selfAdvertise tok => exact ⟨h.rows, h.mds, h.toks, h.trees⟩
 
 theorem run_inv (P : Node → Prop) (hstep : ∀ now s e, P s → P (step now s e).1) :
     ∀ (evs : List (Nat × Event)) (s : Node), P s → P (run s evs).1 := by
@@ -494,7 +607,7 @@ theorem run_inv (P : Node → Prop) (hstep : ∀ now s e, P s → P (step now s 
     exact ih _ (hstep t s e h)
 
 theorem init_ok (me : Key) (g : List (Key × Hash)) : NodeOk (init me g) := by
-  refine ⟨?_, ?_, ?_⟩ <;> simp [init, lookup]
+  refine ⟨?_, ?_, ?_, ?_⟩ <;> simp [init, lookup]
 
 theorem run_ok (me : Key) (g : List (Key × Hash)) (evs : List (Nat × Event)) : NodeOk (run (init me g) evs).1 :=
   run_inv NodeOk (fun now _ e h => step_ok now h e) evs _ (init_ok me g)
@@ -977,44 +1090,36 @@ theorem gatherAll_rooted (k : Key) (gen : Hash) : ∀ (toks : List Token) (t : T
     simp only [gatherAll]
     exact ih _ (gather_rooted k gen t tok ht)
 
-/-- node invariant: every per-subject tree is rooted in that subject's genesis hash -/
-def TreesRooted (s : Node) : Prop := ∀ k t, lookup k s.trees = some t → TreeRooted (genesisOf s k) t
+/-- node invariant: every per-subject tree (cached, or as it would be loaded from the Tokens table) is rooted in that
+    subject's genesis hash -/
+def TreesRooted (s : Node) : Prop := ∀ k, TreeRooted (genesisOf s k) (treeOf s k)
 
-theorem treeOf_rooted {s : Node} (h : TreesRooted s) (k : Key) : TreeRooted (genesisOf s k) (treeOf s k) := by
-  unfold treeOf
-  cases hl : lookup k s.trees with
-  | none => intro x hx; simp at hx
-  | some t => exact h k t hl
-
-theorem substantiate_trees (s : Node) (p : Key) (msg : Msg) :
-    (substantiate s p msg).1.trees = (subTokens s p msg).1.trees := by
-  simp only [substantiate]
-  split
-  · rfl
-  · split <;> simp [subMds, subAtts]
+theorem treeOf_rooted {s : Node} (h : TreesRooted s) (k : Key) : TreeRooted (genesisOf s k) (treeOf s k) := h k
 
 theorem substantiate_rooted {s : Node} (h : TreesRooted s) (p : Key) (msg : Msg) :
     TreesRooted (substantiate s p msg).1 := by
   have hg : ∀ k, genesisOf (substantiate s p msg).1 k = genesisOf s k := by
     intro k; simp only [genesisOf]; rw [(substantiate_frame s p msg).2.2.2.2.2]
-  intro k t hl
-  rw [hg]
-  rw [substantiate_trees] at hl
-  simp only [subTokens, lookup_insertDict] at hl
-  split at hl
+  intro k
+  rw [hg, treeOf_substantiate]
+  split
   · rename_i hk
     subst hk
-    simp only [Option.some.injEq] at hl
-    subst hl
-    exact gatherAll_rooted _ _ _ _ (treeOf_rooted h _)
-  · exact h k t hl
+    exact gatherAll_rooted _ _ _ _ (h k)
+  · exact h k
 
-theorem signPhase_trees (now : Nat) (s1 : Node) (p : Key) (order : List Hash) (c : Bool) :
-    (signPhase now s1 p order c).1.trees = s1.trees ∧ (signPhase now s1 p order c).1.genesis = s1.genesis := by
+theorem treeOf_congr {s' s : Node} (h1 : s'.trees = s.trees) (h2 : s'.tokRows = s.tokRows) (k : Key) :
+    treeOf s' k = treeOf s k := by
+  unfold treeOf loadTree
+  rw [h1, h2]
+
+theorem signPhase_treeOf (now : Nat) (s1 : Node) (p : Key) (order : List Hash) (c : Bool) (k : Key) :
+    treeOf (signPhase now s1 p order c).1 k = treeOf s1 k ∧ (signPhase now s1 p order c).1.genesis = s1.genesis := by
   simp only [signPhase]
   split
   · obtain ⟨_, _, _, _, _, f6, f7⟩ := signLoop_frame now p (treeOf s1 p) (credentials s1 p order) s1
-    exact ⟨f6, f7⟩
+    have f8 := signLoop_tokRows now p (treeOf s1 p) (credentials s1 p order) s1
+    exact ⟨treeOf_congr f6 f8 k, f7⟩
   · simp
 
 theorem received_rooted (now : Nat) {s : Node} (h : TreesRooted s) (p : Key) (msg : Msg) (order : List Hash) :
@@ -1022,18 +1127,18 @@ theorem received_rooted (now : Nat) {s : Node} (h : TreesRooted s) (p : Key) (ms
       (receivedDisclosure now s p msg order).1.genesis = s.genesis := by
   have hsub := substantiate_rooted h p msg
   have hgen := (substantiate_frame s p msg).2.2.2.2.2
-  have hph := signPhase_trees now (substantiate s p msg).1 p order (substantiate s p msg).2.1
+  have hph := signPhase_treeOf now (substantiate s p msg).1 p order (substantiate s p msg).2.1
   have lift : TreesRooted (signPhase now (substantiate s p msg).1 p order (substantiate s p msg).2.1).1 := by
-    intro k t hl
-    rw [hph.1] at hl
-    have := hsub k t hl
-    simpa [genesisOf, hph.2] using this
+    intro k
+    have := hsub k
+    rw [(hph k).1]
+    simpa [genesisOf, (hph k).2] using this
   simp only [receivedDisclosure]
   split
   · exact ⟨h, rfl⟩
   · split
     · exact ⟨hsub, hgen⟩
-    · split <;> exact ⟨lift, hph.2.trans hgen⟩
+    · split <;> exact ⟨lift, (hph 0).2.trans hgen⟩
 
 theorem step_rooted (now : Nat) {s : Node} (h : TreesRooted s) (e : Event) :
     TreesRooted (step now s e).1 ∧ (step now s e).1.genesis = s.genesis := by
@@ -1048,37 +1153,38 @@ theorem step_rooted (now : Nat) {s : Node} (h : TreesRooted s) (e : Event) :
   | advertise to tok md ml => exact ⟨h, rfl⟩
   | selfAdvertise tok => exact ⟨h, rfl⟩
 
-theorem run_rooted (me : Key) (g : List (Key × Hash)) (evs : List (Nat × Event)) :
-    TreesRooted (run (init me g) evs).1 ∧ (run (init me g) evs).1.genesis = g := by
-  have := run_inv (fun s => TreesRooted s ∧ s.genesis = g)
-    (fun now s e h => ⟨(step_rooted now h.1 e).1, (step_rooted now h.1 e).2.trans h.2⟩) evs (init me g)
-    ⟨by intro k t hl; simp [init, lookup] at hl, rfl⟩
-  exact this
+theorem init_rooted (me : Key) (g : List (Key × Hash)) : TreesRooted (init me g) := by
+  intro k x hx; simp [init, treeOf, loadTree, lookup] at hx
 
-/-! ### object lifetimes: a fresh object over an arbitrary, valid database -/
+/-! ### object lifetimes: a new object over an arbitrary, valid database -/
 
-/-- the state of a newly created object whose database was written by earlier objects -/
-structure Fresh (g : List (Key × Hash)) (s : Node) : Prop where
+/-- the state of a newly created object: empty consent table, record and permissions; whatever database (and, if the
+    old IdentityManager is reused, whatever cached per-subject trees) earlier objects left behind, as long as what is
+    stored verifies -/
+structure Started (g : List (Key × Hash)) (s : Node) : Prop where
   known : s.known = []
-  trees : s.trees = []
   attested : s.attested = []
   perms : s.perms = []
   genesis : s.genesis = g
-  rows : ∀ r ∈ s.attRows, verifies r.att.vk r.authority = true
-  mds : ∀ r ∈ s.mdRows, verifies r.md.vk r.subject = true
+  ok : NodeOk s
 
-theorem Fresh.nodeOk {g : List (Key × Hash)} {s : Node} (h : Fresh g s) : NodeOk s :=
-  ⟨h.rows, h.mds, by intro k t hl; simp [h.trees, lookup] at hl⟩
+theorem init_started (me : Key) (g : List (Key × Hash)) : Started g (init me g) :=
+  ⟨rfl, rfl, rfl, rfl, init_ok me g⟩
 
-theorem Fresh.rooted {g : List (Key × Hash)} {s : Node} (h : Fresh g s) : TreesRooted s := by
-  intro k t hl; simp [h.trees, lookup] at hl
+theorem restartOf_started {g : List (Key × Hash)} {s : Node} (hok : NodeOk s) (hg : s.genesis = g)
+    (c : List Hash) (keep : Bool) : Started g (restartOf s c keep) := by
+  refine ⟨rfl, rfl, rfl, hg, ⟨hok.rows, hok.mds, hok.toks, ?_⟩⟩
+  intro k t hl
+  cases keep with
+  | false => simp [restartOf, lookup] at hl
+  | true => exact hok.trees k t (by simpa [restartOf] using hl)
 
-theorem init_fresh (me : Key) (g : List (Key × Hash)) : Fresh g (init me g) := by
-  refine ⟨rfl, rfl, rfl, rfl, rfl, ?_, ?_⟩ <;> simp [init]
-
-theorem restartOf_fresh {g : List (Key × Hash)} {s : Node} (hok : NodeOk s) (hg : s.genesis = g) (c : List Hash) :
-    Fresh g (restartOf s c) :=
-  ⟨rfl, rfl, rfl, rfl, hg, hok.rows, hok.mds⟩
+/-- with the OLD manager every tree stays what it was, so rootedness carries over; with a NEW manager the trees are
+    reloaded from the Tokens table, which may lack ancestors that arrived in a message whose parsing later raised -/
+theorem restartOf_keep_rooted {s : Node} (hr : TreesRooted s) (c : List Hash) : TreesRooted (restartOf s c true) := by
+  intro k
+  have := hr k
+  simpa [restartOf, treeOf, loadTree, genesisOf] using this
 
 theorem run_ok' {s : Node} (h : NodeOk s) (evs : List (Nat × Event)) : NodeOk (run s evs).1 :=
   run_inv NodeOk (fun now _ e h => step_ok now h e) evs _ h
@@ -1088,26 +1194,79 @@ theorem run_rooted' {g : List (Key × Hash)} {s : Node} (h : TreesRooted s) (hg 
   run_inv (fun s => TreesRooted s ∧ s.genesis = g)
     (fun now _ e h => ⟨(step_rooted now h.1 e).1, (step_rooted now h.1 e).2.trans h.2⟩) evs s ⟨h, hg⟩
 
-theorem fresh_knownFrom {g : List (Key × Hash)} {s : Node} (h : Fresh g s) : KnownFrom [] s := by
+theorem run_genesis (s : Node) (evs : List (Nat × Event)) : (run s evs).1.genesis = s.genesis := by
+  induction evs generalizing s with
+  | nil => rfl
+  | cons x rest ih =>
+    obtain ⟨t, e⟩ := x
+    simp only [run]
+    rw [ih]
+    cases e with
+    | addKnown l raw padded name key md => rfl
+    | disclosure p msg order =>
+      simp only [step, receivedDisclosure]
+      have hgen := (substantiate_frame s p msg).2.2.2.2.2
+      have hph := fun c => (signPhase_treeOf t (substantiate s p msg).1 p order c 0).2
+      split
+      · rfl
+      · split
+        · exact hgen
+        · split <;> exact (hph _).trans hgen
+    | attestMsg p a =>
+      cases a with
+      | none => rfl
+      | some a => simp only [step, onAttest]; split <;> rfl
+    | requestMissing p k => rfl
+    | advertise to tok md ml => rfl
+    | selfAdvertise tok => rfl
+
+theorem started_knownFrom {g : List (Key × Hash)} {s : Node} (h : Started g s) : KnownFrom [] s := by
   intro hh r hl; simp [h.known, lookup] at hl
 
-theorem fresh_permsFrom {g : List (Key × Hash)} {s : Node} (h : Fresh g s) : PermsFrom [] s := by
+theorem started_permsFrom {g : List (Key × Hash)} {s : Node} (h : Started g s) : PermsFrom [] s := by
   intro p n hl; simp [h.perms, lookup] at hl
 
-/-- any number of lifetimes: each is a history followed by a restart with some reloaded chain -/
-def lifetimes (s : Node) : List (List (Nat × Event) × List Hash) → Node
+/-- any number of lifetimes: each is a history followed by a restart (reloaded chain, old manager kept or not) -/
+def lifetimes (s : Node) : List (List (Nat × Event) × List Hash × Bool) → Node
   | [] => s
-  | (evs, c) :: rest => lifetimes (restartOf (run s evs).1 c) rest
+  | (evs, c, keep) :: rest => lifetimes (restartOf (run s evs).1 c keep) rest
 
-theorem lifetimes_fresh {g : List (Key × Hash)} : ∀ (ls : List (List (Nat × Event) × List Hash)) (s : Node),
-    Fresh g s → Fresh g (lifetimes s ls) := by
+theorem lifetimes_started {g : List (Key × Hash)} : ∀ (ls : List (List (Nat × Event) × List Hash × Bool)) (s : Node),
+    Started g s → Started g (lifetimes s ls) := by
   intro ls
   induction ls with
   | nil => intro s h; exact h
   | cons x rest ih =>
     intro s h
-    obtain ⟨evs, c⟩ := x
+    obtain ⟨evs, c, keep⟩ := x
     simp only [lifetimes]
-    exact ih _ (restartOf_fresh (run_ok' h.nodeOk evs) (run_rooted' h.rooted h.genesis evs).2 c)
+    exact ih _ (restartOf_started (run_ok' h.ok evs) ((run_genesis s evs).trans h.genesis) c keep)
+
+/-! ### the last advertise call naming a peer -/
+
+def isAdvertiseTo (p : Key) (x : Nat × Event) : Prop := ∃ tok md ml, x.2 = Event.advertise p tok md ml
+
+theorem exists_last_advertise (p : Key) : ∀ (pre : List (Nat × Event)),
+    (∃ x ∈ pre, isAdvertiseTo p x) →
+    ∃ pre1 t tok md ml post, pre = pre1 ++ (t, Event.advertise p tok md ml) :: post ∧
+      ∀ x ∈ post, ∀ tok' md' ml', x.2 ≠ Event.advertise p tok' md' ml' := by
+  intro pre
+  induction pre with
+  | nil => intro h; obtain ⟨x, hx, _⟩ := h; simp at hx
+  | cons y rest ih =>
+    intro h
+    by_cases hr : ∃ x ∈ rest, isAdvertiseTo p x
+    · obtain ⟨pre1, t, tok, md, ml, post, he, hp⟩ := ih hr
+      exact ⟨y :: pre1, t, tok, md, ml, post, by simp [he], hp⟩
+    · obtain ⟨x, hx, tok, md, ml, hxe⟩ := h
+      rcases List.mem_cons.mp hx with hxy | hxr
+      · subst hxy
+        obtain ⟨t, e⟩ := x
+        simp only at hxe
+        subst hxe
+        refine ⟨[], t, tok, md, ml, rest, by simp, ?_⟩
+        intro z hz tok' md' ml' hze
+        exact hr ⟨z, hz, tok', md', ml', hze⟩
+      · exact absurd ⟨x, hxr, tok, md, ml, hxe⟩ hr
 
 end Ipv8.C17
